@@ -181,9 +181,11 @@ def build(repo=None):
                 ob["serves"] = [c[:3]] + (["C12", "C13"] if c[:3] == "C04" else [])
                 if c.startswith("C12:no-label") or c.startswith("C16:"):
                     ob["serves"] = ["C12", "C16", "C09"]  # the '?' label protocol: a restore obligation, the C16 mechanism, and what later structured checks (C09) need -- a label left behind makes them raise
+                if c.startswith("C08:the-leaf-loop-enumerates"):
+                    ob["serves"] = ["C08", "C16", "C09"]  # leaf POSITIONS are what '?' axes (C16) are keyed by
                 if c.startswith("C12:flatten"):
                     # 'the type-only mode is on exactly while a tree is flattened' is the invariant the array checks rely on (C01/C02/C03)
-                    ob["serves"] = ["C12", "C08", "C01", "C02", "C03", "C17"]
+                    ob["serves"] = ["C12", "C08", "C01", "C02", "C03", "C17", "C13"]
             obligations.append(ob)
 
     # ================================================================== __instancecheck__
@@ -291,6 +293,8 @@ def build(repo=None):
             pi0 = st.get(top[2])
             st.ghost.update(top=list(top), flatten=False, label=None, replaced=False, flat_calls=0)
             the_leaves = Opaque("leaves", z3.Const("the_leaves", U))
+            # a comprehension / dict.fromkeys / filter over the leaves yields SOME OTHER list (possibly shorter, positions shifted)
+            eng.method_models["__listcomp__"] = lambda e, s, node: [(s, Opaque("some-list-built-by-a-comprehension"))]
 
             # ---- the vendored type checker and the leaf check
             def m_leafcheck(e, s, args, kwargs, node):
@@ -394,6 +398,12 @@ def build(repo=None):
                 if not (isinstance(node.target, ast.Tuple) and len(node.target.elts) == 2):
                     raise Unsupported("leaf loop target")
                 iv, lv = node.target.elts[0].id, node.target.elts[1].id
+                # the loop runs over enumerate(<the list tree_flatten returned>): every leaf, in flatten order, under its own position
+                over = None
+                if isinstance(node.iter, ast.Call) and getattr(node.iter.func, "id", "") == "enumerate" and len(node.iter.args) == 1 and not node.iter.keywords:
+                    rs = e.ev(node.iter.args[0], s0)
+                    over = rs[0][1] if len(rs) == 1 else None
+                e.oblige(s0, "C08:the-leaf-loop-enumerates-exactly-the-list-of-leaves-that-tree_flatten-returned(every-leaf,-flatten-order,-positions-0..n-1)", z3.BoolVal(over is the_leaves))
                 s1 = s0.clone()
                 s1.pc += [0 <= k, k < nleaves, AllAcc(k), AllAcc(k + 1) == z3.And(AllAcc(k), Acc(k)), AllAcc(0)]
                 if leaf_any:
